@@ -890,6 +890,10 @@ func (db *DB) Drop() (err error) {
 	db.Lock()
 	defer db.Unlock()
 
+	// the asynchronous writes routines must stop, otherwise their next
+	// commit creates the directories of the dropped database again
+	db.cancel()
+
 	return os.RemoveAll(db.root)
 }
 
